@@ -815,8 +815,8 @@ func (t *ZeroAllocTokenizer) tokenizeTemplatePath(path string) {
 	path = strings.TrimSpace(path)
 
 	// If it's a quoted string
-	if (strings.HasPrefix(path, "\"") && strings.HasSuffix(path, "\"")) ||
-		(strings.HasPrefix(path, "'") && strings.HasSuffix(path, "'")) {
+	if len(path) >= 2 && ((strings.HasPrefix(path, "\"") && strings.HasSuffix(path, "\"")) ||
+		(strings.HasPrefix(path, "'") && strings.HasSuffix(path, "'"))) {
 		// Extract content without quotes
 		content := path[1 : len(path)-1]
 		t.AddToken(TOKEN_STRING, content, t.line)
@@ -1222,7 +1222,7 @@ func (t *ZeroAllocTokenizer) TokenizeOptimized() ([]Token, error) {
 			endLength = 2 // }}
 		case TAG_VAR_TRIM:
 			// Check if it ends with -}}
-			if tagEndPos > 0 && t.source[tagEndPos-1] == '-' {
+			if tagEndPos > 0 && t.source[tagEndPos-1] == '-' && len(tagContent) > 0 {
 				endTokenType = TOKEN_VAR_END_TRIM
 				endLength = 3 // -}}
 				// Adjust tag content to remove the trailing dash
@@ -1236,7 +1236,7 @@ func (t *ZeroAllocTokenizer) TokenizeOptimized() ([]Token, error) {
 			endLength = 2 // %}
 		case TAG_BLOCK_TRIM:
 			// Check if it ends with -%}
-			if tagEndPos > 0 && t.source[tagEndPos-1] == '-' {
+			if tagEndPos > 0 && t.source[tagEndPos-1] == '-' && len(tagContent) > 0 {
 				endTokenType = TOKEN_BLOCK_END_TRIM
 				endLength = 3 // -%}
 				// Adjust tag content to remove the trailing dash
